@@ -81,6 +81,7 @@ def run(H, tier, rng):
                     return
 
 
-Harness("C05", "curve families x 2 distances x 3 orderings, the whole chain k = 0..n+1 per case: size, nesting, the gained index is an "
-        "interior arg-max (to 4 ulp of the coordinate scale) of a retained segment with maximal ordering score (scores recomputed "
-        "from the library's primitives on the segment alone); plus an in-place-mutation history check", "n <= 13 quick / 20 thorough (+ curves of 30/40 thorough)").main(run, replay)
+if __name__ == "__main__":
+    Harness("C05", "curve families x 2 distances x 3 orderings, the whole chain k = 0..n+1 per case: size, nesting, the gained index is an "
+            "interior arg-max (to 4 ulp of the coordinate scale) of a retained segment with maximal ordering score (scores recomputed "
+            "from the library's primitives on the segment alone); plus an in-place-mutation history check", "n <= 13 quick / 20 thorough (+ curves of 30/40 thorough)").main(run, replay)
